@@ -834,6 +834,29 @@ func (tb *TB) FactsAtRaw(b *ssa.BasicBlock) []Atom {
 			continue
 		}
 		out = append(out, a)
+		// `merge == nil` where the merge has exactly one nil way in and nothing but freshly made
+		// errors on the others (the error of a spliced checking helper): control came that way,
+		// so what holds on it holds here
+		if a.Kind == "cmp" && a.Op == "==" && a.Y != nil && a.Y.Op == "Nil" && a.X != nil {
+			if ph, isPhi := a.X.V.(*ssa.Phi); isPhi && ph.Block() != b {
+				nilIdx, okShape := -1, true
+				for i, e := range ph.Edges {
+					if isNilConst(e) {
+						if nilIdx >= 0 {
+							okShape = false
+						}
+						nilIdx = i
+					} else if !tb.p.definitelyNonNil(e, 0) {
+						okShape = false
+					}
+				}
+				if okShape && nilIdx >= 0 && tb.phiDepth < 2 {
+					tb.phiDepth++
+					out = append(out, tb.FactsAtRaw(ph.Block().Preds[nilIdx])...)
+					tb.phiDepth--
+				}
+			}
+		}
 	}
 	return out
 }
